@@ -21,8 +21,14 @@ EU_Val9 == EU_Leaf9
            \cup {SD("dict", NoVal, <<<<EU_KA, EU_L("1")>>, <<EU_KB, x>>>>) : x \in EU_XRefs}
            \cup {SD("list", NoVal, <<<<IKey(0), x>>>>) : x \in EU_Leaf9}
            \cup {EU_Call(<<<<EU_KA, x>>>>) : x \in EU_Leaf9}
+\* a container holding containers (its grandchildren are evaluated under the target's own path)
+EU_Deep == {SD("dict", NoVal, <<<<EU_KA, SD("dict", NoVal, <<<<EU_KA, EU_L("1")>>>>)>>, <<EU_KB, SD("list", NoVal, <<<<IKey(0), EU_L("1")>>>>)>>>>),
+            SD("list", NoVal, <<<<IKey(0), SD("list", NoVal, <<<<IKey(0), EU_L("1")>>>>)>>>>)}
 EU_C09_Docs == SetToSeq({SD("dict", NoVal, <<<<EU_KA, x>>, <<EU_KB, y>>, <<EU_KC, z>>>>)
-                         : x \in EU_Val9, y \in EU_Val9, z \in EU_Leaf9})
+                         : x \in EU_Val9, y \in EU_Val9, z \in EU_Leaf9 \cup EU_Deep})
+\* forward chains of one to three hops onto such a container (quick tier)
+EU_C09_DocsC == SetToSeq({SD("dict", NoVal, <<<<EU_KA, x>>, <<EU_KB, y>>, <<EU_KC, z>>>>)
+                          : x \in EU_XRefs \cup {SD("list", NoVal, <<<<IKey(0), EU_XRef(<<EU_KB>>)>>>>)}, y \in EU_XRefs, z \in EU_Deep})
 \* a smaller set (two top-level keys) for quick runs and liveness
 EU_C09_DocsS == SetToSeq({SD("dict", NoVal, <<<<EU_KA, x>>, <<EU_KB, y>>>>) : x \in EU_Val9, y \in EU_Val9})
 
